@@ -6,6 +6,7 @@ import (
 	"log/slog"
 	"math"
 	"math/big"
+	"regexp"
 	"strings"
 	"testing"
 
@@ -53,6 +54,36 @@ type Case struct {
 }
 
 func rat(n, d int64) *big.Rat { return big.NewRat(n, d) }
+
+var floatRE = regexp.MustCompile(`-?\d+\.\d+`)
+
+// shownInOrder: each wanted quantity appears, in order, among the decimal numbers of the text,
+// correctly rounded to however many decimals the text shows (so the display precision is free).
+func shownInOrder(text string, want []*big.Rat) (bool, int) {
+	toks := floatRE.FindAllString(text, -1)
+	i := 0
+	for _, tk := range toks {
+		if i >= len(want) {
+			break
+		}
+		dec := len(tk) - strings.IndexByte(tk, '.') - 1
+		v, ok := new(big.Rat).SetString(tk)
+		if !ok {
+			continue
+		}
+		d := new(big.Rat).Sub(v, want[i])
+		d.Abs(d)
+		tol := new(big.Rat).SetFrac(big.NewInt(1), new(big.Int).Exp(big.NewInt(10), big.NewInt(int64(dec)), nil))
+		tol.Mul(tol, big.NewRat(51, 100)) // half a unit of the last shown decimal (+2 % for float formatting)
+		rel := new(big.Rat).Abs(want[i])
+		rel.Mul(rel, big.NewRat(1, 1000000000))
+		tol.Add(tol, rel)
+		if d.Cmp(tol) <= 0 {
+			i++
+		}
+	}
+	return i == len(want), i
+}
 
 // close: |got - want| <= 4*2^-52*|want| + 1e-9
 func closeTo(got float64, want *big.Rat) bool {
@@ -146,6 +177,7 @@ func check(c Case, o *stats.Obs) error {
 	rough := new(big.Rat).Add(rat(int64(c.Whole), 1), rat(int64(c.Frac), 1024)) // ms
 	cMs := rat(cLight, 1000)                                                    // metres per ms
 	desc := fmt.Sprintf("%+v", c)
+	var shown []*big.Rat // quantities the readable form must show, in the order it shows them
 	if c.Whole == 255 {
 		// invalid rough range: zero values, 'invalid' in the display
 		if api.aggRange() != 0 || api.rangeM() != 0 || api.aggPhase() != 0 || api.phaseCycles() != 0 {
@@ -174,6 +206,7 @@ func check(c Case, o *stats.Obs) error {
 			o.Key = "range"
 			return fmt.Errorf("range %v m, want %s m [%s]", got, wantRangeM.FloatString(9), desc)
 		}
+		shown = append(shown, wantRangeM)
 		wantAgg := new(big.Rat).Mul(wantRange, rat(1<<29, 1))
 		if !wantAgg.IsInt() || api.aggRange() != wantAgg.Num().Uint64() {
 			o.Key = "range"
@@ -196,6 +229,7 @@ func check(c Case, o *stats.Obs) error {
 			o.Key = "phase-range"
 			return fmt.Errorf("phase range %v cycles, want %s [%s]", got, wantCycles.FloatString(6), desc)
 		}
+		shown = append(shown, wantCycles)
 		if strings.Contains(api.satText(), "invalid") && (!c.MSM7 || c.RoughRate != -8192) {
 			o.Key = "display"
 			return fmt.Errorf("valid range shown as invalid: %q", api.satText())
@@ -229,10 +263,22 @@ func check(c Case, o *stats.Obs) error {
 				o.Key = "doppler"
 				return fmt.Errorf("Doppler %v Hz, want %s [%s]", got, wantDop.FloatString(6), desc)
 			}
+			shown = append(shown, wantDop, wantRate)
 			if wantRate.Sign() < 0 {
 				o.Class("negative-rate")
 			}
 		}
+	}
+	if len(shown) > 0 {
+		if ok, n := shownInOrder(api.text(), shown); !ok {
+			var ws []string
+			for _, w := range shown {
+				ws = append(ws, w.FloatString(4))
+			}
+			o.Key = "display"
+			return fmt.Errorf("readable form of the signal does not show the quantities %v (range m, phase cycles[, Doppler Hz, rate m/s]) correctly rounded, in order (matched %d): %q [%s]", ws, n, api.text(), desc)
+		}
+		o.Class("display-checked")
 	}
 	// MSM4 == MSM7 for the same quantity (constructed cells only).
 	if !c.MSM7 && !c.ViaDecoder && c.Whole != 255 {
